@@ -294,6 +294,20 @@ Lemma at_sort_dedup_perm l1 l2 :
   Permutation l1 l2 -> sort_names (dedup l1) = sort_names (dedup l2).
 Proof. intros P; apply sort_names_perm_eq, at_dedup_perm, P. Qed.
 
+Lemma at_find_node_rel (R : node -> node -> Prop) id l1 l2 :
+  (forall a b, R a b -> nid a = nid b) ->
+  Forall2 R l1 l2 ->
+  match find_node id l1, find_node id l2 with
+  | Some a, Some b => R a b
+  | None, None => True
+  | _, _ => False
+  end.
+Proof.
+  intros HR. induction 1 as [|a b l1 l2 Hab F IH]; simpl; [exact I|].
+  rewrite (HR a b Hab).
+  destruct (name_eqb id (nid b)); [exact Hab|exact IH].
+Qed.
+
 Lemma at_find_node_equiv id l1 l2 :
   Forall2 node_equiv l1 l2 ->
   match find_node id l1, find_node id l2 with
@@ -301,11 +315,7 @@ Lemma at_find_node_equiv id l1 l2 :
   | None, None => True
   | _, _ => False
   end.
-Proof.
-  induction 1 as [|a b l1 l2 Hab F IH]; simpl; [exact I|].
-  assert (E : nid a = nid b) by apply Hab. rewrite E.
-  destruct (name_eqb id (nid b)); [exact Hab|exact IH].
-Qed.
+Proof. apply at_find_node_rel. intros a b H; apply H. Qed.
 
 Section ObsEquiv.
   Variable parse : name -> option (name * Z).
